@@ -3,7 +3,9 @@ package props
 import (
 	"fmt"
 	"net/url"
+	"os"
 	"regexp"
+	"sort"
 	"strings"
 	"testing"
 
@@ -280,7 +282,17 @@ func RunC10(t *testing.T, spec kernel.Spec) *kernel.Outcome {
 	out.StepIDs = []int{}
 	site := "router" + router + "/" + flow.name
 	// one case = one fresh world; case 0 is the fault-free pilot
+	type plan struct {
+		method string         // non-empty: every call of this storage method fails
+		set    map[int]string // call number -> kind (multi-fault sequences)
+		id     int
+		label  string
+	}
+	var runPlan func(k int, kind string, pl *plan) (o *kernel.Outcome, calls int, methods []string, applicable bool)
 	runCase := func(k int, kind string) (o *kernel.Outcome, calls int, methods []string, applicable bool) {
+		return runPlan(k, kind, nil)
+	}
+	runPlan = func(k int, kind string, pl *plan) (o *kernel.Outcome, calls int, methods []string, applicable bool) {
 		o = inBubble(t, spec, func(o *kernel.Outcome, tape *kernel.Tape) {
 			caps := world.Caps{ClientCredentials: true, TokenExchange: true, Device: true, FromRequest: spec.Seed%3 == 0}
 			w, err := world.NewStd(o, tape, world.StdOptions{Router: router, ForceCaps: &caps, AllGrants: true, ForceConfig: func(c *op.Config) {
@@ -304,7 +316,27 @@ func RunC10(t *testing.T, spec kernel.Spec) *kernel.Outcome {
 			}
 			first := w.Net.Len()
 			fired := false
-			if k > 0 {
+			firedAt := ""
+			if pl != nil {
+				w.Store.Inject = func(callNo int, method string, reqID int) string {
+					if reqID <= first {
+						return ""
+					}
+					if pl.method != "" && method == pl.method {
+						fired = true
+						firedAt = method
+						return kind
+					}
+					if kd, ok := pl.set[callNo]; ok {
+						fired = true
+						if firedAt == "" {
+							firedAt = method
+						}
+						return kd
+					}
+					return ""
+				}
+			} else if k > 0 {
 				w.Store.Inject = func(callNo int, method string, reqID int) string {
 					if reqID > first && callNo == k && !fired {
 						if kind == world.FaultTorn && !tornMethods[method] {
@@ -322,6 +354,16 @@ func RunC10(t *testing.T, spec kernel.Spec) *kernel.Outcome {
 				for _, j := range w.Store.JournalFor(r.Ex.ID) {
 					methods = append(methods, j.Method)
 				}
+			}
+			if pl != nil {
+				if !fired {
+					return
+				}
+				o.Fault("multi:" + pl.label)
+				desc := fmt.Sprintf("%s router %s: %s", flow.name, router, pl.label)
+				o.Logf("%s -> %d", desc, statusOf(r))
+				checkFailClosed(o, "C10", site+"/"+firedAt, pl.id, desc, r, redirect, flow.name == "introspect")
+				return
 			}
 			if k == 0 {
 				if r.Ex != nil && r.Ex.Panic != "" {
@@ -378,6 +420,68 @@ func RunC10(t *testing.T, spec kernel.Spec) *kernel.Outcome {
 			out.SimSeconds += o.SimSeconds
 		}
 	}
+	if os.Getenv("VERIF_TIER") == "thorough" || spec.Params["extras"] != "" || spec.KeepSet {
+		merge := func(o *kernel.Outcome, id int, label string) {
+			if len(o.Faults) == 0 {
+				return
+			}
+			out.StepIDs = append(out.StepIDs, id)
+			out.Steps++
+			out.Trace = append(out.Trace, fmt.Sprintf("%s/%s/%s", router, flow.name, label))
+			out.Distinct(fmt.Sprintf("%s/%s/%s", router, flow.name, label))
+			for f, v := range o.Faults {
+				out.Faults[strings.SplitN(f, ":", 2)[0]] += v
+			}
+			out.Violations = append(out.Violations, o.Violations...)
+			out.Log = append(out.Log, o.Log...)
+		}
+		// every call of one named storage method fails
+		seen := map[string]bool{}
+		mi := 0
+		for _, m := range methods {
+			if seen[m] {
+				continue
+			}
+			seen[m] = true
+			for ki, kind := range []string{world.FaultError, world.FaultTimeout} {
+				id := 10000 + mi*2 + ki
+				mi2 := mi
+				_ = mi2
+				if spec.KeepSet && !containsInt(spec.Keep, id) {
+					continue
+				}
+				o, _, _, _ := runPlan(0, kind, &plan{method: m, id: id, label: "every " + m + " call answers " + kind})
+				if o.Infra != "" {
+					out.Infra = o.Infra
+					return out
+				}
+				merge(o, id, "always:"+m+":"+kind)
+			}
+			mi++
+		}
+		// seeded two- and three-fault sequences
+		seq := kernel.NewTape(spec.Seed, nil).Sub("c10-sequences")
+		for j := 0; j < 8 && n >= 2; j++ {
+			id := 20000 + j
+			set := map[int]string{}
+			for len(set) < min(2+j%2, n) {
+				set[1+seq.Int(n)] = []string{world.FaultError, world.FaultTimeout}[seq.Int(2)]
+			}
+			if spec.KeepSet && !containsInt(spec.Keep, id) {
+				continue
+			}
+			var ks []string
+			for _, k := range sortedIntKeys(set) {
+				ks = append(ks, fmt.Sprintf("%d=%s", k, set[k]))
+			}
+			o, _, _, _ := runPlan(0, "", &plan{set: set, id: id, label: "calls " + strings.Join(ks, ",") + " fail"})
+			if o.Infra != "" {
+				out.Infra = o.Infra
+				return out
+			}
+			merge(o, id, "seq:"+strings.Join(ks, ","))
+		}
+	}
 	out.Nontrivial = out.Steps > 0
 	out.Probe("flow:" + flow.name + "/" + router)
 	out.Sample = map[string]any{"seed": spec.Seed, "flow": flow.name, "router": router, "storage_calls_in_target": methods, "cases": out.Trace}
@@ -419,4 +523,13 @@ func containsInt(xs []int, x int) bool {
 		}
 	}
 	return false
+}
+
+func sortedIntKeys(m map[int]string) []int {
+	ks := make([]int, 0, len(m))
+	for k := range m {
+		ks = append(ks, k)
+	}
+	sort.Ints(ks)
+	return ks
 }
